@@ -137,12 +137,15 @@ class Repo:
                 from . import alpha, normalize
 
                 st = normalize.normalise_module(tree, name)
-                for k, v in st.items():
-                    self.normalised[k] = self.normalised.get(k, 0) + v
                 if any(st.values()):
                     strip_inert(tree)
-
                 self.renamed.extend(alpha.normalise(tree, name))
+                st["temporaries"] = normalize.normalise_temporaries(tree, name)
+                if st["temporaries"]:
+                    self.renamed.extend(alpha.normalise(tree, name))
+                st["guards"] = normalize.normalise_guards(tree, name)
+                for k, v in st.items():
+                    self.normalised[k] = self.normalised.get(k, 0) + v
                 self.reshaped += alpha.canonicalise_shapes(tree, name)
                 m = Module(name, path, src, tree, hashlib.sha256(raw).hexdigest())
                 self.modules[name] = m
